@@ -3,8 +3,6 @@ package internal
 import (
 	"context"
 	"encoding/base64"
-	"errors"
-	"io"
 	"strings"
 	"time"
 
@@ -131,7 +129,12 @@ func StatsEndRPC(
 			BeginTime: beginTime,
 			EndTime:   time.Now(),
 		}
-		if appErr != nil && !errors.Is(appErr, io.EOF) {
+		// appErr is what the caller or handler of a unary RPC, or the handler of a
+		// stream, ended with. None of them uses io.EOF for success (that is only
+		// the receiving side of a stream's convention), so an error that is or
+		// wraps io.EOF, e.g. from a transport whose Read reports the peer's
+		// close that way, is a failure like any other.
+		if appErr != nil {
 			end.Error = appErr
 		}
 		sh.HandleRPC(ctx, end)
